@@ -569,6 +569,13 @@ func vdLeafSites(p *reg.Pkg, sp, fv reflect.Value, ft reflect.Type, t *yang.Yang
 						cls = "identity-undefined"
 					}
 				}
+				for _, m := range flattenUnion(t) {
+					if m.Kind == yang.Yint64 {
+						// a union member is matched against the union's types by Go kind: the int64 member
+						// takes the enumerated value (known finding validate/union-enum-int64)
+						cls = "union-enum-int64"
+					}
+				}
 				*sites = append(*sites, vdSite{class: cls, fault: true, desc: here + "=union enum 99",
 					apply: func(g *treeGen) (func(), bool) {
 						bad := reflect.New(dyn.Type()).Elem()
